@@ -97,6 +97,11 @@ pub fn check_pair(f: &L, g: &L, loc: &mut Local) {
             }
         }
     }
+    // the operator form is the checked composition: defined iff the types match
+    match catch(|| (&lf >> &lg).is_some()) {
+        Ok(d) if d == types_match => {}
+        other => loc.violation("shr:definedness-differs-from-compose", json!({"case": case, "got": format!("{:?}", other), "types_match": types_match})),
+    }
     // unchecked form: defined iff arities match
     match catch(|| lf.lax_compose(&lg)) {
         Err(p) => loc.violation("lax_compose:panic", json!({"case": case, "panic": p})),
